@@ -3,6 +3,7 @@ package props
 import (
 	"fmt"
 	"sort"
+	"sync"
 	"testing"
 
 	"github.com/herohde/morlock/pkg/board"
@@ -290,6 +291,45 @@ var checkC06Derived = def("C06/derived", func(gc gen.GameCase) error {
 	if err := attacksAgree(p, o); err != nil {
 		return fmt.Errorf("after %d moves from %s: %v", len(gc.Moves), gc.FEN, err)
 	}
+	// attacked/defended "by these kinds": any list of kinds, in any order (a deterministic
+	// family of lists derived from the position, so that the case stays a pure function)
+	kinds := []int8{oracle.Pawn, oracle.Knight, oracle.Bishop, oracle.Rook, oracle.Queen, oracle.King}
+	seed := stats.FP(o.KeyFEN())
+	for trial := 0; trial < 4; trial++ {
+		seed = mix64(seed + uint64(trial))
+		perm := append([]int8(nil), kinds...)
+		for i := len(perm) - 1; i > 0; i-- {
+			j := int(mix64(seed+uint64(i)) % uint64(i+1))
+			perm[i], perm[j] = perm[j], perm[i]
+		}
+		list := perm[:1+int(seed%6)]
+		var rl []board.Piece
+		inList := map[int8]bool{}
+		for _, k := range list {
+			rl = append(rl, bridge.Piece(k))
+			inList[k] = true
+		}
+		for s := 0; s < 64; s++ {
+			for _, white := range []bool{true, false} {
+				want := false
+				for _, from := range o.AttackersOf(s, !white) {
+					k := o.Sq[from]
+					if k < 0 {
+						k = -k
+					}
+					if inList[k] {
+						want = true
+					}
+				}
+				if got := p.IsAttackedBy(bridge.Color(white), bridge.Sq(s), rl); got != want {
+					return fmt.Errorf("IsAttackedBy(%v, %s, %v)=%v, definition says %v in %s", bridge.Color(white), oracle.SqName(s), rl, got, want, c.FEN)
+				}
+				if got := p.IsDefendedBy(bridge.Color(!white), bridge.Sq(s), rl); got != want {
+					return fmt.Errorf("IsDefendedBy(%v, %s, %v)=%v, definition says %v in %s", bridge.Color(!white), oracle.SqName(s), rl, got, want, c.FEN)
+				}
+			}
+		}
+	}
 	var labels []string
 	multi := false
 	for _, white := range []bool{true, false} {
@@ -380,4 +420,121 @@ func TestC06_derived(t *testing.T) {
 		stats.Sample("C06/derived", c)
 		return checkC06Derived(c)
 	})
+}
+
+// TestC06_parallel: the derived queries are pure functions of the position; evaluated by
+// several goroutines at once (as concurrent searches do) they must give the same answers.
+func TestC06_parallel(t *testing.T) {
+	runRapid(t, "C06/parallel", 600, func(t *rapid.T) []string {
+		var fens []string
+		for i, n := 0, rapid.IntRange(2, 8).Draw(t, "goroutines"); i < n; i++ {
+			if rapid.Bool().Draw(t, "synth") {
+				fens = append(fens, gen.Synth(t).FEN())
+			} else {
+				_, g := gen.Game(t, 40)
+				fens = append(fens, g.Cur().FEN())
+			}
+		}
+		return fens
+	}, func(fens []string) error {
+		stats.Sample("C06/parallel", fens)
+		return checkC06Parallel(fens)
+	})
+}
+
+var checkC06Parallel = def("C06/parallel", func(fens []string) error {
+	errs := make([]error, len(fens))
+	var wg sync.WaitGroup
+	for i, f := range fens {
+		i, f := i, f
+		wg.Add(1)
+		go func() {
+			defer wg.Done()
+			defer func() {
+				if r := recover(); r != nil {
+					errs[i] = fmt.Errorf("panic: %v", r)
+				}
+			}()
+			for rep := 0; rep < 6 && errs[i] == nil; rep++ {
+				errs[i] = checkC06Quiet(f)
+			}
+		}()
+	}
+	wg.Wait()
+	for i, err := range errs {
+		if err != nil {
+			return fmt.Errorf("evaluated concurrently with %d other positions: %v (position %s)", len(fens)-1, err, fens[i])
+		}
+	}
+	stats.Case("C06/parallel", stats.FP(fmt.Sprint(fens)), true, fmt.Sprintf("goroutines:%d", len(fens)))
+	return nil
+})
+
+// checkC06Quiet: FindCapture / FindPins / PieceSquares / LegalMoves of one position against the
+// oracle, without touching the statistics (runs on several goroutines).
+func checkC06Quiet(f string) error {
+	st, err := oracle.ParseFEN(f)
+	if err != nil {
+		return err
+	}
+	o := &st.Pos
+	p, err := bridge.Position(o)
+	if err != nil {
+		return err
+	}
+	for _, white := range []bool{true, false} {
+		col := bridge.Color(white)
+		for s := 0; s < 64; s++ {
+			want := o.AttackersOf(s, white)
+			var gs []int
+			for _, pl := range eval.FindCapture(p, col, bridge.Sq(s)) {
+				gs = append(gs, bridge.OSq(pl.Square))
+			}
+			sort.Ints(gs)
+			if fmt.Sprint(gs) != fmt.Sprint(want) && !(len(gs) == 0 && len(want) == 0) {
+				return fmt.Errorf("FindCapture(%v, %s) = %v, definition %v", col, oracle.SqName(s), gs, want)
+			}
+		}
+		for _, kind := range []int8{oracle.King, oracle.Queen} {
+			want := oraclePins(o, white, kind)
+			var got []pinT
+			for _, pin := range eval.FindPins(p, col, bridge.Piece(kind)) {
+				got = append(got, pinT{bridge.OSq(pin.Attacker), bridge.OSq(pin.Pinned), bridge.OSq(pin.Target)})
+			}
+			sort.Slice(got, func(i, j int) bool { return fmt.Sprint(got[i]) < fmt.Sprint(got[j]) })
+			if fmt.Sprint(got) != fmt.Sprint(want) && !(len(got) == 0 && len(want) == 0) {
+				return fmt.Errorf("FindPins(%v, %v) = %v, definition %v", col, bridge.Piece(kind), got, want)
+			}
+		}
+		for _, pc := range allPieces {
+			sqs := p.PieceSquares(col, pc)
+			for _, sq := range sqs {
+				k := o.Sq[bridge.OSq(sq)]
+				if (k > 0) != white || bridge.Piece(abs8t(k)) != pc {
+					return fmt.Errorf("PieceSquares(%v, %v) lists %v, which holds something else", col, pc, sq)
+				}
+			}
+		}
+	}
+	want := map[bridge.Key]bool{}
+	for _, m := range o.Legal() {
+		want[bridge.KeyOf(m)] = true
+	}
+	got := p.LegalMoves(bridge.Color(o.White))
+	if len(got) != len(want) {
+		return fmt.Errorf("LegalMoves lists %d moves, %d are legal", len(got), len(want))
+	}
+	for _, m := range got {
+		if !want[bridge.KeyOfRepo(m)] {
+			return fmt.Errorf("LegalMoves lists %s, not legal", bridge.Text(m))
+		}
+	}
+	return nil
+}
+
+func abs8t(v int8) int8 {
+	if v < 0 {
+		return -v
+	}
+	return v
 }
